@@ -16,14 +16,33 @@ RULE = ('a case = (reference SEL device: log of 0..50 16-byte records with disti
         'request/response trace, final device state (log, deletion record, reservation).  Independently every case is '
         'judged by the property: entries = log, once each, in order; empty log -> nothing; get-and-clear returns '
         'exactly the record the device deleted, the delete carries the reservation of the completed read, nothing is '
-        'deleted when an error is raised.  For get-and-clear a cancellation is placed before every request index of '
-        'the fault-free run.  Distinct by (device, operation); non-trivial = at least three exchanges.')
+        'deleted when an error is raised; with fewer changes than rounds and the addressed record still in the log '
+        'after every change the call must SUCCEED ("both steps are repeated").  For get-and-clear a cancellation is '
+        'placed before every request index of the fault-free run.  DECODING: every SelEntry the library returns is '
+        'judged attribute by attribute (record_id, type, timestamp, generator_id, evm_rev, sensor_type, sensor_number, '
+        'event_direction, event_type, event_data, data) against the record formats of IPMI v2.0 tables 32-1..3 '
+        '(system event: all of them; OEM C0h-DFh: id, type, timestamp, data; OEM E0h-FFh: id, type, data) and compared '
+        'with the Lean decoding; records of every type class and boundary (02h, C0h, DFh, E0h, FFh; rejected: 00h, 01h, '
+        '03h, BFh) are decoded directly as well.  HISTORIES: several operations (listing / get-and-clear / get under a '
+        'fresh reservation, with an explicit retry where the tree has one) on ONE Ipmi object against one evolving '
+        'device, each step compared with the model started from the device as it stood (driver `snap`) and judged.  '
+        'The variant of pyipmi/sel.py (floor of max_req_len, retry budget of get-and-clear) is PROBED on the real code '
+        '(a device that refuses every length; a script that cancels before every request) and handed to the model.  '
+        'Distinct by (device, operation); non-trivial = at least three exchanges.')
 ASSUMPTIONS = [
     'the device is the Lean reference device (Spec/SelDevice.lean): CAh for what it does not serve, C5h for a lost '
     'reservation, reservation checked on Get SEL Entry when one is given or the offset is not 0, always on delete',
     'a concurrent log change is a scripted event applied before a request; the real wall clock plays no role',
-    'model max_req_len saturates at 0 where Python goes negative: only on a device with partial-read limit 0 '
-    '(outside the property, not generated)',
+    'partial-read limit 0 (the device refuses every length) is outside the property; it is generated for the '
+    'correspondence with the model only (max_req_len is a Python int in the model too: 0, -1 ... as shipped)',
+    'termination of the two loops of pyipmi/sel.py under a device that refuses / cancels for ever is C13\'s clause '
+    '(C13:get_sel_entry:unbounded-after-CAh, C13:get_and_clear_sel_entry:unbounded-after-C5h); the theorems here are '
+    'about the repaired variant (Props.C12.source_variant ties it to the tree), and when that tie is broken the '
+    'search shows the unbounded get-and-clear on this property\'s own device (a script that cancels before every request)',
+    'OEM records: the library fills the system-event attributes (generator_id, sensor_type ... and, for the '
+    'non-timestamped types E0h-FFh, timestamp) from the same byte positions; the specification defines no such '
+    'fields there, they are not judged (observation: SelEntry has no manufacturer-id / OEM-data attribute, the bytes '
+    'are in `data`)',
 ]
 TRUSTED = ['harness/translate/loops10.py', 'harness/sim/dev10.py', 'harness/props/c12.py (generators, oracle)']
 
@@ -47,33 +66,159 @@ def _entry_hex(e):
     return lean.hexs(bytes(bytearray(e.data.array)))
 
 
-def real_op(ipmi, op):
+def entry_attrs(e):
+    """The decoded SelEntry as the driver's `decode` line: id type ts gen evm stype snum deassert etype data."""
+    from pyipmi.event import EVENT_ASSERTION, EVENT_DEASSERTION
+    d = {EVENT_ASSERTION: 0, EVENT_DEASSERTION: 1}.get(e.event_direction, 'dir=%r' % (e.event_direction,))
+    return 'ok %d %d %d %d %d %d %d %s %d %s' % (
+        e.record_id, e.type, e.timestamp, e.generator_id, e.evm_rev, e.sensor_type, e.sensor_number, d, e.event_type,
+        lean.hexs(bytes(bytearray(e.event_data))))
+
+
+def real_op(ipmi, op, seen=None):
+    """-> outcome text; every SelEntry object returned is appended to `seen`."""
+    seen = seen if seen is not None else []
     if op[0] == 'entries':
         es = ipmi.get_sel_entries()
+        seen.extend(es)
         return 'ok ' + (','.join(_entry_hex(e) for e in es) if es else '-')
     if op[0] == 'get':
         e, nxt = ipmi.get_sel_entry(int(op[1]), int(op[2]))
+        seen.append(e)
         return 'ok %s %d' % (_entry_hex(e), nxt)
     if op[0] == 'gac':
-        e = ipmi.get_and_clear_sel_entry(int(op[1]))
+        if len(op) > 2:
+            e = ipmi.get_and_clear_sel_entry(int(op[1]), retry=int(op[2]))
+        else:
+            e = ipmi.get_and_clear_sel_entry(int(op[1]))
+        seen.append(e)
         return 'ok ' + _entry_hex(e)
     raise ValueError(op)
 
 
-def run_real(drv, dev, op, cap=20000):
+def _guarded(ipmi, op, seen):
+    try:
+        return real_op(ipmi, op, seen)
+    except dev10.Hang as e:
+        return dev10.outcome_tag(e)
+    except lean.LeanError:
+        raise
+    except Exception as e:  # noqa
+        return dev10.outcome_tag(e)
+
+
+def run_real(drv, dev, op, cap=20000, seen=None):
     device = dev10.LeanDevice(drv)
     device.load(dev_line(dev))
     iface = dev10.FakeInterface(device, cap=cap, files=('pyipmi/sel.py',), leaves=())
     ipmi = dev10.make_ipmi(iface)
-    try:
-        out = real_op(ipmi, op)
-    except dev10.Hang as e:
-        out = dev10.outcome_tag(e)
-    except lean.LeanError:
-        raise
-    except Exception as e:  # noqa
-        out = dev10.outcome_tag(e)
+    out = _guarded(ipmi, op, seen)
     return out, iface.trace, drv.ask('state')
+
+
+# ---- the variant of pyipmi/sel.py, probed on the real code -------------------------------------
+VARIANT = {'floor': None, 'budget': None}      # as shipped until probed
+PROBE_REC = '010002' + '11' * 13
+
+
+def probe_variant(drv):
+    """floor: a device that refuses every length (limit 0, no whole-record reads) - RetryError behind a last
+    request of F+1 bytes means `max_req_len <= F` gives up; anything else (the pinned code goes on to ask for 0
+    bytes, which this device refuses with CCh) means there is none.  budget: a script that cancels before every
+    request - RetryError after N Reserve SEL means N rounds; no end within 300 requests means `while True`."""
+    dev = {'log': [PROBE_REC], 'limit': 0, 'whole': False, 'cur': 1, 'valid': True, 'evs': []}
+    out, trace, _ = run_real(drv, dev, ['get', '1', '1'], cap=300)
+    floor = None
+    if out == 'RetryError' and trace and trace[-1][0] == 0x43:
+        floor = trace[-1][1][5] - 1
+    dev = {'log': [PROBE_REC], 'limit': 16, 'whole': True, 'cur': 1, 'valid': False, 'evs': ['c'] * 400}
+    out, trace, _ = run_real(drv, dev, ['gac', '1'], cap=300)
+    budget = sum(1 for t in trace if t[0] == 0x42) if out == 'RetryError' else None
+    return {'floor': floor, 'budget': budget}
+
+
+def set_variant(drv, v):
+    VARIANT.update(v)
+    r = drv.ask('variant %s %s' % ('-' if v['floor'] is None else v['floor'], '-' if v['budget'] is None else v['budget']))
+    if r != 'ok':
+        raise lean.LeanError('driver rejected variant: %s' % r)
+
+
+# ---- record formats, IPMI v2.0 tables 32-1 (system event), 32-2 (OEM C0h-DFh), 32-3 (OEM E0h-FFh) ----
+def view_of(b):
+    """bytes of one record -> the fields the tables define, or None (not 16 bytes / no such record type)."""
+    if len(b) != 16:
+        return None
+    t = b[2]
+    v = {'record_id': b[0] | b[1] << 8, 'type': t}
+    if t == 0x02:
+        v.update(timestamp=b[3] | b[4] << 8 | b[5] << 16 | b[6] << 24, generator_id=b[7] | b[8] << 8, evm_rev=b[9],
+                 sensor_type=b[10], sensor_number=b[11], deassert=b[12] >> 7, event_type=b[12] & 0x7F,
+                 event_data=list(b[13:16]))
+    elif 0xC0 <= t <= 0xDF:
+        v.update(timestamp=b[3] | b[4] << 8 | b[5] << 16 | b[6] << 24)
+    elif 0xE0 <= t <= 0xFF:
+        pass
+    else:
+        return None
+    return v
+
+
+_decode_cache = {}
+
+
+def judge_entry(ctx, drv, e, case, stored=None):
+    """One SelEntry object the library handed out: attributes against the tables; against the Lean decoding."""
+    from pyipmi.event import EVENT_ASSERTION, EVENT_DEASSERTION
+    raw = bytes(bytearray(e.data.array))
+    hx = lean.hexs(raw)
+    v = view_of(raw)
+    if v is None:
+        ctx.violate('C12:SelEntry:accepted', 'a SelEntry was built from bytes that are no SEL record '
+                    '(16 bytes of type 02h / C0h-FFh)', case, expected='DecodingError', observed=hx)
+        return
+    got = {'record_id': e.record_id, 'type': e.type, 'timestamp': e.timestamp, 'generator_id': e.generator_id,
+           'evm_rev': e.evm_rev, 'sensor_type': e.sensor_type, 'sensor_number': e.sensor_number,
+           'deassert': {EVENT_ASSERTION: 0, EVENT_DEASSERTION: 1}.get(e.event_direction, e.event_direction),
+           'event_type': e.event_type, 'event_data': list(e.event_data)}
+    for k in sorted(v):
+        if got[k] != v[k]:
+            ctx.violate('C12:SelEntry:%s' % k, 'SelEntry.%s of a type %02Xh record is not what the record format says' % (
+                k if k != 'deassert' else 'event_direction', raw[2]), dict(case, entry=hx),
+                expected='%s = %r' % (k, v[k]), observed='%s = %r' % (k, got[k]))
+            return
+    ctx.count('decoded:%s' % ('system' if raw[2] == 2 else 'oem-timestamped' if raw[2] < 0xE0 else 'oem-plain'))
+    if drv is not None:
+        m = _decode_cache.get(hx)
+        if m is None:
+            m = _decode_cache[hx] = drv.ask('decode ' + hx)
+        code = entry_attrs(e)
+        if m != code:
+            ctx.disagree('decode', dict(case, entry=hx), m, code)
+
+
+def decode_direct(ctx, drv, hx):
+    """SelEntry(bytes) on its own: accepted iff the tables know the record, then judged like any other."""
+    import pyipmi.sel
+    from pyipmi.utils import ByteBuffer
+    raw = lean.unhex(hx)
+    case = {'decode': hx}
+    try:
+        e = pyipmi.sel.SelEntry()
+        e._from_response(ByteBuffer(raw))     # (the constructor skips decoding of an empty buffer)
+        out = 'ok'
+    except Exception as ex:  # noqa
+        e, out = None, dev10.outcome_tag(ex)
+    ctx.case(('decode', hx))
+    if e is not None:
+        judge_entry(ctx, drv, e, case)
+    else:
+        if view_of(raw) is not None:
+            ctx.violate('C12:SelEntry:rejected', 'a well-formed SEL record is not decoded', case, expected='a SelEntry',
+                        observed=out)
+        m = drv.ask('decode ' + hx)
+        if m != out:
+            ctx.disagree('decode', case, m, out)
 
 
 def parse_state(s):
@@ -114,11 +259,31 @@ def _find(log, rid):
     return None
 
 
-def judge(ctx, dev, op, out, trace, state):
+def _always_avail(dev, rid):
+    """the record `rid` designates exists, and every record is of a known type, now and after every change"""
+    log = list(dev['log'])
+    states = [list(log)]
+    for e in dev['evs']:
+        if e == 'd':
+            log = log[1:]
+        elif e.startswith('a'):
+            log = log + [e[1:]]
+        if e != 'n':
+            states.append(list(log))
+    return all(_find(l, rid) is not None and all(_type_ok(h) for h in l) for l in states)
+
+
+def _type_ok(h):
+    b = lean.unhex(h)
+    return len(b) == 16 and (b[2] == 2 or b[2] >= 0xC0)
+
+
+def judge(ctx, dev, op, out, trace, state, deleted_before=0):
     case = {'dev': dev, 'op': op}
     if not _wf(dev):
         return
     st = parse_state(state)
+    st['deleted'] = st['deleted'][deleted_before:]       # histories: the deletion record of this step only
     log = dev['log']
     faults = [e for e in dev['evs'] if e != 'n']
     if op[0] == 'entries':
@@ -191,8 +356,17 @@ def judge(ctx, dev, op, out, trace, state):
                             'get_and_clear_sel_entry raised %s although the device deleted a record' % out, case,
                             expected='nothing deleted', observed='deleted=%s' % (st['deleted'],))
                 return
+        # "both steps are repeated": fewer changes than rounds and the addressed record still there after every
+        # change -> the call succeeds (which record: the atomicity clause above)
+        rounds = int(op[2]) if len(op) > 2 else VARIANT['budget']
+        if (rounds is None or len(faults) < rounds) and _always_avail(dev, rid) and not out.startswith('ok '):
+            ctx.violate('C12:get_and_clear_sel_entry:gives-up',
+                        'get_and_clear_sel_entry raised %s although the addressed record was in the log after each of the '
+                        '%d changes (%s rounds)' % (out, len(faults), 'unlimited' if rounds is None else rounds), case,
+                        expected='the record, read and deleted under one reservation', observed=out)
+            return
         # with cancellations only (the log itself never changes) the call must succeed with the stored record
-        if all(e in ('n', 'c') for e in dev['evs']):
+        if all(e in ('n', 'c') for e in dev['evs']) and (rounds is None or len(faults) < rounds):
             i = _find(log, rid)
             if i is not None:
                 exp = 'ok ' + log[i]
@@ -212,15 +386,25 @@ def _first_diff(a, b):
     return 'length: model %d / code %d exchanges' % (len(xa), len(xb))
 
 
+def model_op(dev, op):
+    """the driver's `run` arguments: get-and-clear gets its number of rounds - the explicit / default retry of a
+    tree with a budget, else fuel beyond the script (the pinned `while True` ends on every finite script)"""
+    if op[0] != 'gac':
+        return list(op)
+    if VARIANT['budget'] is not None:
+        return ['gac', op[1], op[2] if len(op) > 2 else str(VARIANT['budget'])]
+    return ['gac', op[1], str(len(dev['evs']) + 2)]
+
+
 def one_case(ctx, drv, dev, op, compare=True):
-    out, trace, state = run_real(drv, dev, op)
+    seen = []
+    out, trace, state = run_real(drv, dev, op, seen=seen)
     judge(ctx, dev, op, out, trace, state)
+    for e in seen:
+        judge_entry(ctx, drv if compare else None, e, {'dev': dev, 'op': op})
     ctx.case((dev_line(dev), tuple(op)), nontrivial=len(trace) >= 3)
     if compare:
-        mop = list(op)
-        if op[0] == 'gac':
-            mop = ['gac', op[1], str(len(dev['evs']) + 2)]
-        model = drv.ask('run ' + ' '.join(mop))
+        model = drv.ask('run ' + ' '.join(model_op(dev, op)))
         parts = model.split(' | ')
         code = [out, dev10.show_trace(trace), state]
         if parts != code:
@@ -279,10 +463,83 @@ def _fresh_entry(rng, dev):
             return gen_entry(rng, rid)
 
 
+def _prepare(ctx, drv):
+    """probe the variant on the real code, hand it to the model, compare with what the translator read"""
+    v = probe_variant(drv)
+    set_variant(drv, v)
+    read = (_consts or {}).get('sel')
+    ctx.extra['sel_variant'] = {'probed_on_real_code': dict(v),
+                                'read_from_source': None if read is None else {'floor': read['floor'], 'budget': read['budget']}}
+    if read is not None and (read['floor'], read['budget']) != (v['floor'], v['budget']):
+        ctx.disagree('variant of pyipmi/sel.py: source reading vs behaviour', {},
+                     {'floor': read['floor'], 'budget': read['budget']}, v)
+
+
+def history(ctx, drv, rng, dev, steps):
+    """several operations on ONE Ipmi object against one evolving device; each step is judged and compared with
+    the model started from the device as it stood before the step"""
+    device = dev10.LeanDevice(drv)
+    device.load(dev_line(dev))
+    iface = dev10.FakeInterface(device, cap=20000, files=('pyipmi/sel.py',), leaves=())
+    ipmi = dev10.make_ipmi(iface)
+    evs0 = list(dev['evs'])
+    done = []
+    for step in steps:
+        st = parse_state(drv.ask('state'))
+        now = {'log': st['log'], 'limit': dev['limit'], 'whole': dev['whole'], 'cur': st['cur'], 'valid': st['valid'],
+               'evs': evs0[len(evs0) - st['evs']:] if st['evs'] else []}
+        op = list(step)
+        if op[0] == 'get' and op[2] == 'fresh':
+            # a reservation of its own first (not an operation of the model: the device just moves on)
+            try:
+                op[2] = str(ipmi.get_sel_reservation_id())
+            except Exception as e:  # noqa
+                done.append(['reserve', dev10.outcome_tag(e)])
+                continue
+            st = parse_state(drv.ask('state'))
+            now.update(log=st['log'], cur=st['cur'], valid=st['valid'],
+                       evs=evs0[len(evs0) - st['evs']:] if st['evs'] else [])
+        if op[0] in ('get', 'gac') and op[1] in ('first-id', 'last-id'):
+            if not now['log']:
+                continue
+            op[1] = str(_eid(now['log'][0 if op[1] == 'first-id' else -1]))
+        drv.ask('snap')
+        k = len(iface.trace)
+        seen = []
+        out = _guarded(ipmi, op, seen)
+        trace = iface.trace[k:]
+        state = drv.ask('state')
+        case = {'history': {'dev': dev, 'steps': [list(x) for x in steps]}, 'step': len(done), 'dev': now, 'op': op}
+        before = len(ctx.violations)
+        judge(ctx, now, op, out, trace, state, deleted_before=len(st['deleted']))
+        for v in ctx.violations[before:]:
+            v['case'] = case
+        for e in seen:
+            judge_entry(ctx, drv, e, case)
+        ctx.case((dev_line(dev), tuple(tuple(x) for x in steps), len(done)), nontrivial=len(trace) >= 3)
+        model = drv.ask('run ' + ' '.join(model_op(now, op)))
+        parts = model.split(' | ')
+        code = [out, dev10.show_trace(trace), state]
+        if parts != code:
+            what = 'history step %d %s: ' % (len(done), ' '.join(op))
+            if len(parts) == 3 and parts[0] == out and parts[2] == state:
+                what += 'trace: ' + _first_diff(parts[1], code[1])
+            else:
+                what += 'model %s / code %s' % (model[:160], ' | '.join(code)[:160])
+            ctx.disagree('history', case, what, out[:200])
+        done.append([op, out])
+        ctx.count('history-step:' + op[0])
+    return done
+
+
+DECODE_TYPES = [0x02, 0xC0, 0xC1, 0xDF, 0xE0, 0xE1, 0xFF, 0x00, 0x01, 0x03, 0xBF, 0x7F]
+
+
 def run(ctx):
     drv = ctx.driver('drv_c12')
     rng = ctx.rng('c12')
     quick = ctx.tier == 'quick'
+    _prepare(ctx, drv)
 
     def go(dev, op, tag):
         out, trace = one_case(ctx, drv, dev, op)
@@ -355,6 +612,53 @@ def run(ctx):
         if ctx.time_left() < 20:
             ctx.notes.append('time budget reached in generator 4')
             break
+    # 4b. get-and-clear with an explicit retry budget (trees that have one): 1..8 rounds against 0..9 changes
+    if VARIANT['budget'] is not None:
+        for _ in range(120 if quick else 1500):
+            dev = gen_device(rng, rng.choice([1, 2, 3]))
+            rid = rng.choice([0, 0xFFFF] + [_eid(h) for h in dev['log']] * 2)
+            retry = rng.randrange(1, 9)
+            nf = rng.randrange(0, 10)
+            evs = []
+            for _k in range(nf):
+                evs.extend(['n'] * rng.randrange(0, 4))
+                evs.append(rng.choice(['c', 'c', 'c', 'd', 'a' + _fresh_entry(rng, dev)]))
+            dev['evs'] = evs
+            go(dev, ['gac', str(rid), str(retry)], 'gac-retry')
+    # 4c. record decoding on its own: every type class and boundary, extreme field values, wrong lengths
+    for t in DECODE_TYPES:
+        for _ in range(6 if quick else 60):
+            body = [rng.randrange(256) for _k in range(13)]
+            r = rng.random()
+            if r < 0.2:
+                body = [rng.choice([0x00, 0xFF, 0x80, 0x7F])] * 13
+            elif r < 0.4:
+                body[9] = rng.choice([0x00, 0x7F, 0x80, 0xFF])          # event dir / type byte
+            rid = rng.choice([1, 0x1234, 0xFFFE, 0x00FF, 0xFF00, rng.randrange(0x10000)])
+            decode_direct(ctx, drv, lean.hexs(bytes(bytearray([rid & 0xFF, rid >> 8, t] + body))))
+    for n in (0, 1, 15, 17, 32):
+        decode_direct(ctx, drv, lean.hexs(bytes(bytearray([1, 0, 2] + [7] * 29)[:n])) or '-')
+    # 4d. histories on ONE Ipmi object (self.max_req_len is object state): listing / get / get-and-clear in sequence
+    for _ in range(40 if quick else 500):
+        dev = gen_device(rng, rng.choice([2, 3, 4, 6]))
+        if rng.random() < 0.8:
+            dev['whole'] = False
+        if rng.random() < 0.3:
+            dev['evs'] = [rng.choice(['n', 'n', 'n', 'n', 'c', 'd']) for _k in range(rng.randrange(0, 40))]
+        steps = []
+        for _k in range(rng.randrange(2, 6)):
+            r = rng.random()
+            if r < 0.35:
+                steps.append(['entries'])
+            elif r < 0.7:
+                st = ['gac', rng.choice(['0', '65535', 'first-id', 'last-id'])]
+                if VARIANT['budget'] is not None and rng.random() < 0.4:
+                    st.append(str(rng.randrange(1, 5)))
+                steps.append(st)
+            else:
+                steps.append(['get', rng.choice(['0', '65535', 'first-id', 'last-id']), 'fresh'])
+        history(ctx, drv, rng, dev, steps)
+        ctx.count('gen:history')
     # 5. outside the premises (model must mirror): absent record id, reservation missing for partial reads,
     #    malformed records (unknown type / wrong id bytes), faults during get_sel_entries
     for _ in range(80 if quick else 800):
@@ -362,8 +666,17 @@ def run(ctx):
         r = rng.random()
         if r < 0.25:
             op = ['gac', str(rng.randrange(1, 0xFFFF))]
-        elif r < 0.5:
+        elif r < 0.4:
             op = ['get', str(rng.choice([0, 0xFFFF, 5])), '0']
+        elif r < 0.5:
+            # a device that refuses every length: outside "limits 1..16"; the model follows max_req_len below 1
+            dev = gen_device(rng, 2)
+            dev['limit'], dev['whole'] = 0, False
+            if rng.random() < 0.5:
+                dev['valid'], dev['cur'] = True, rng.randrange(1, 0x10000)
+                op = ['get', str(rng.choice([0, 0xFFFF])), str(dev['cur'])]
+            else:
+                op = rng.choice([['entries'], ['gac', '0']])
         elif r < 0.75:
             if dev['log']:
                 b = bytearray(lean.unhex(dev['log'][0]))
@@ -377,6 +690,32 @@ def run(ctx):
     ctx.extra['constants'] = (_consts or {}).get('sel')
 
 
+GAC_ROUND = 35          # Lean: gac_bound - Reserve SEL, at most 33 Get SEL Entry, Delete SEL Entry
+GAC_ROUNDS = 5          # Variant.intended.budget
+
+
+def unbounded_case():
+    return {'dev': {'log': [PROBE_REC], 'limit': 16, 'whole': True, 'cur': 1, 'valid': False,
+                    'evs': ['c'] * (2 * GAC_ROUND * GAC_ROUNDS + 40)}, 'op': ['gac', '1'], 'cap': GAC_ROUND * GAC_ROUNDS + 1}
+
+
+def unbounded_witness(ctx, drv):
+    """The tie to the repaired variant is broken: show it on this property's own device.  Another party
+    cancels the reservation before every request; the repaired get-and-clear gives up with RetryError after its
+    budget (at most 35 requests a round), the pinned `while True` goes on as long as the script does."""
+    case = unbounded_case()
+    out, trace, _ = run_real(drv, case['dev'], case['op'], cap=case['cap'])
+    ctx.case(('unbounded-witness',))
+    if out == 'py:nontermination' or len(trace) > GAC_ROUND * GAC_ROUNDS:
+        ctx.violate('C12:get_and_clear_sel_entry:unbounded-after-C5h',
+                    'get_and_clear_sel_entry is still repeating reserve / read after %d requests against a device whose '
+                    'reservation is cancelled before every request (no retry budget, no RetryError)' % len(trace),
+                    {'witness': 'cancel before every request', 'op': case['op'], 'cap': case['cap'],
+                     'device': dev_line(dict(case['dev'], evs=['c', 'c', '...']))},
+                    expected='RetryError after at most %d requests' % (GAC_ROUND * GAC_ROUNDS),
+                    observed='%s after %d requests' % (out, len(trace)))
+
+
 def search(ctx):
     """A tie broke and `run` saw no violation: exhaustive small sweep of the real code against the
     oracle - every limit x whole x log size 0..4 for the listing; get-and-clear with a fault of every
@@ -384,6 +723,9 @@ def search(ctx):
     drv = ctx.driver('drv_c12')
     rng = ctx.rng('c12-search')
     before = len(ctx.violations)
+    unbounded_witness(ctx, drv)
+    if len(ctx.violations) > before:
+        return
     for limit in range(1, 17):
         for whole in (False, True):
             for n in range(0, 5):
@@ -406,16 +748,46 @@ def search(ctx):
 
 def replay(ctx, v):
     case = v['case']
-    dev, op = case['dev'], [str(x) for x in case['op']]
     drv = ctx.driver('drv_c12')
-    out, trace, state = run_real(drv, dev, op)
+    set_variant(drv, probe_variant(drv))
+    c2 = ctx.__class__('C12', 'quick', 0)
+    if 'decode' in case:
+        decode_direct(c2, drv, case['decode'])
+        print('record : %s' % case['decode'])
+        return _show(c2)
+    if 'history' in case:
+        h = case['history']
+        done = history(c2, drv, None, h['dev'], [[str(x) for x in st] for st in h['steps']])
+        print('device : %s' % dev_line(h['dev'])[:400])
+        for i, (op, out) in enumerate(done):
+            print('step %d : %s -> %s' % (i, ' '.join(op) if isinstance(op, list) else op, out[:200]))
+        return _show(c2)
+    if 'witness' in case:
+        unbounded_witness(c2, drv)
+        case = unbounded_case()
+        dev, op = case['dev'], case['op']
+        out, trace, state = run_real(drv, dev, op, cap=case['cap'])
+        print('device : %s' % dev_line(dev)[:200])
+        print('op     : %s' % ' '.join(op))
+        print('code   : %s after %d requests' % (out, len(trace)))
+        print('trace  : %s ...' % dev10.show_trace(trace[:6])[:300])
+        return _show(c2)
+    dev, op = case['dev'], [str(x) for x in case['op']]
+    seen = []
+    out, trace, state = run_real(drv, dev, op, seen=seen)
     print('device : %s' % dev_line(dev)[:400])
     print('op     : %s' % ' '.join(op))
     print('code   : %s' % out[:300])
     print('trace  : %s' % dev10.show_trace(trace)[:700])
     print('state  : %s' % state[:400])
-    c2 = ctx.__class__('C12', 'quick', 0)
     judge(c2, dev, op, out, trace, state)
+    for e in seen:
+        judge_entry(c2, None, e, {'dev': dev, 'op': op})
+        print('entry  : %s -> %s' % (_entry_hex(e), entry_attrs(e)))
+    return _show(c2)
+
+
+def _show(c2):
     for x in c2.violations:
         print('violated: %s' % x['what'])
         print('  expected: %s' % (json.dumps(x['expected'])[:300]))
